@@ -10,6 +10,9 @@ def register(CHECKS, H):
         quick.append({"unit": u, "args": ["--part", "simplicial", "--nverts", "4", "--F", "0,1"], "shards": 2})
     quick.append({"unit": "c02_opt0", "args": ["--part", "hasse", "--nverts", "3", "--F", "0,1,2"]})
     quick.append({"unit": "c02_opt0", "args": ["--part", "delta", "--maxt", "1"], "shards": 6})
+    # one vertex, two loops, two triangles: the smallest scope with Z/2 and Z/3 torsion interacting in the multi-field
+    # (a seeded change in the partial inverse only showed here)
+    quick.append({"unit": "c02_opt0", "args": ["--part", "delta", "--maxv", "1", "--maxe", "2", "--maxt", "2"], "shards": 2})
     quick.append({"unit": "c02_opt0", "args": ["--part", "surfaces"], "shards": 2})
     thorough = []
     for u in ("c02_opt0", "c02_opt3"):
@@ -33,7 +36,7 @@ def register(CHECKS, H):
                  "persistence_dim_max) combination (ev.transitions counts engine runs) and get_persistent_pairs, betti numbers, "
                  "persistent betti numbers, intervals_in_dimension and output_diagram are compared with the oracle on the order "
                  "exposed by filtration_simplex_range; non-trivial = complex of dimension >= 1 (resp. with a triangle)"),
-        "bounds": {"quick": "3 vertices x values {0..3}; 4 vertices x values {0,1}; delta complexes with <= 1 triangle; RP^2/torus with vertex values in {0,1} and all 720 orders of RP^2",
+        "bounds": {"quick": "3 vertices x values {0..3}; 4 vertices x values {0,1}; delta complexes with <= 1 triangle, and with 1 vertex, <= 2 loops, <= 2 triangles; RP^2/torus with vertex values in {0,1} and all 720 orders of RP^2",
                    "thorough": "4 vertices x values {0,1,2} (153 367 complexes, 2 option sets); delta complexes with <= 2 triangles; surfaces with values {0,1,2} and all vertex orders"},
         "assumptions": ["filtration values are small integers", "Delta-complex-like Hasse complexes (loops, repeated faces) are accepted input: the engine only uses boundary_simplex_range"],
         "runs": {"quick": quick, "thorough": thorough},
